@@ -11,9 +11,11 @@ address hashes, as explicit hypotheses (`SigBinds`, `SigUnique`, `MsigAddrInj`, 
   tampering (ideal crypto): msig_copied_signature_rejected, sig_binds, msig_binds, pq_binds, tamper_rejected, tamper_rejected_pq, tamper_sig_rejected, tamper_subsig_rejected,
                            msig_params_bound, lsig_contract_program_bound, lsig_delegated_program_bound
   what is NOT guaranteed (as coded): msig_surplus_signature_removable, lsig_does_not_sign_txn
+  cache:                   cache_compares_all_fields (FACT regenerated from the source), cache_key_is_txid, same_material_eq, cache_hit_sound
   rekeying:                rekey_changes_authorizer, rekey_to_self_clears, rekey_absent_keeps, after_rekey_only_new_key
 -/
 import AlgoVerif.Lemmas.Authz
+import AlgoVerif.Gen.AuthzCacheKey
 namespace Props.C28
 open AlgoVerif.Model.Authz AlgoVerif.Spec.Authz AlgoVerif.Lemmas.Authz
 
@@ -397,6 +399,94 @@ theorem after_rekey_only_new_key (E : Env T) (P : Params) (gi : Nat) (grp : List
     rwa [hk] at hv'
   · exact absurd hp (hn .sig)
 
+/-! ### the verified-transaction cache -/
+
+/-- the equality tests of the cache lookup are sound (`==` on arrays, the Equal methods; equal txids ⇒ equal transaction
+    bodies is the collision-freeness of the txid hash) -/
+def FieldEqSound (Q : FieldEq T) : Prop :=
+  (∀ a b, Q.txid a b = true → a = b) ∧ (∀ a b, Q.sig a b = true → a = b) ∧ (∀ a b, Q.msig a b = true → a = b) ∧
+  (∀ a b, Q.lsig a b = true → a = b) ∧ (∀ a b, Q.pqsig a b = true → a = b) ∧ (∀ a b, Q.addr a b = true → a = b)
+
+/-- FACT about the current source (regenerated on every run by tools/c28facts): the cache lookup reads EVERY field of the
+    SignedTxn that the authorization predicate reads besides the transaction body — Sig, Msig, Lsig, PQsig and AuthAddr.
+    Dropping one of them from the comparison (or from a helper it calls) breaks this proof. -/
+theorem cache_compares_all_fields : ∀ f : Field, f ∈ Gen.AuthzCacheKey.comparedFields := by
+  intro f; cases f <;> decide
+
+/-- … and the cache key is the txid, which covers the transaction body -/
+theorem cache_key_is_txid : Gen.AuthzCacheKey.usesTxid = true := by decide
+
+/-- a cached and a presented SignedTxn with the same txid that pass the comparison over all fields are EQUAL — in
+    particular they have the same `authorizer` and the same signature container, the only things `Authorized` reads -/
+theorem same_material_eq (Q : FieldEq T) (hQ : FieldEqSound Q) (fields : List Field) (hall : ∀ f, f ∈ fields)
+    (c s : STxn T) (hm : sameMaterial Q fields c s = true) (ht : c.txn = s.txn) : c = s := by
+  obtain ⟨_, h2, h3, h4, h5, h6⟩ := hQ
+  unfold sameMaterial at hm
+  rw [List.all_eq_true] at hm
+  have e1 := h2 _ _ (hm .sig (hall _))
+  have e2 := h3 _ _ (hm .msig (hall _))
+  have e3 := h4 _ _ (hm .lsig (hall _))
+  have e4 := h5 _ _ (hm .pqsig (hall _))
+  have e5 := h6 _ _ (hm .authAddr (hall _))
+  cases c; cases s
+  simp only at e1 e2 e3 e4 e5
+  simp only at ht
+  subst e1 e2 e3 e4 e5 ht
+  rfl
+
+theorem findEntry_spec {C : Type} (Q : FieldEq T) (hQ : FieldEqSound Q) (cache : List (CacheEntry T C)) (t : T.Txn) (e : CacheEntry T C)
+    (h : findEntry Q cache t = some e) : e ∈ cache ∧ ∃ s' ∈ e.grp, s'.txn = t := by
+  unfold findEntry at h
+  refine ⟨List.mem_of_find?_eq_some h, ?_⟩
+  have := List.find?_some h
+  rw [List.any_eq_true] at this
+  obtain ⟨s', hs', ht⟩ := this
+  exact ⟨s', hs', hQ.1 _ _ ht⟩
+
+/-- CACHE HIT SOUNDNESS.  If GetUnverifiedTransactionGroups filters a group out as already verified, then every member `s`
+    (at index j) was looked up in a cached group `e` — verified earlier in the same context, containing a transaction with
+    s's txid — and the SignedTxn `c` at index j of that group agrees with `s` on Sig, Msig, Lsig, PQsig and AuthAddr; when
+    `c` is that transaction (same body), `c = s`: the presented SignedTxn IS the verified one, so it is authorized by the
+    very authorizer the signature was checked against.  (As coded the lookup does not itself check that the transaction
+    at index j is the one with s's txid; the group id inside the txid, re-checked by the evaluator, ties positions.) -/
+theorem cache_hit_sound {C : Type} (Q : FieldEq T) (hQ : FieldEqSound Q) (fields : List Field) (hall : ∀ f, f ∈ fields)
+    (ctxEq : C → C → Bool) (cache : List (CacheEntry T C)) (ctx : C) :
+    ∀ (l : List (STxn T)) (i : Nat), membersCached Q fields ctxEq cache ctx i l = some true →
+      ∀ j s, l[j]? = some s → ∃ e ∈ cache, ctxEq e.ctx ctx = true ∧ (∃ s' ∈ e.grp, s'.txn = s.txn) ∧
+        ∃ c, e.grp[i + j]? = some c ∧ sameMaterial Q fields c s = true ∧ (c.txn = s.txn → c = s) := by
+  intro l
+  induction l with
+  | nil => intro i _ j s hj; simp at hj
+  | cons a rest ih =>
+    intro i h j s hj
+    unfold membersCached at h
+    cases hf : findEntry Q cache a.txn with
+    | none => rw [hf] at h; cases h
+    | some e =>
+      rw [hf] at h
+      dsimp only at h
+      by_cases hc : (!ctxEq e.ctx ctx) = true
+      · rw [if_pos hc] at h; cases h
+      rw [if_neg hc] at h
+      cases hg : e.grp[i]? with
+      | none => rw [hg] at h; cases h
+      | some c =>
+        rw [hg] at h
+        dsimp only at h
+        by_cases hm : sameMaterial Q fields c a = true
+        · rw [if_pos hm] at h
+          cases j with
+          | zero =>
+            simp only [List.getElem?_cons_zero, Option.some.injEq] at hj
+            subst hj
+            obtain ⟨hmem, hs'⟩ := findEntry_spec Q hQ cache _ e hf
+            exact ⟨e, hmem, by simpa using hc, hs', c, by simpa using hg, hm, fun ht => same_material_eq Q hQ fields hall c _ hm ht⟩
+          | succ j =>
+            simp only [List.getElem?_cons_succ] at hj
+            have := ih (i + 1) h j s hj
+            rwa [show i + 1 + j = i + (j + 1) by omega] at this
+        · rw [if_neg hm] at h; cases h
+
 /-! ### non-vacuity: a concrete ideal-cryptography instance meets every hypothesis used above -/
 
 namespace Ex
@@ -548,6 +638,39 @@ example : msigVerify exEnv (.txn 40) (.msig 1 2 [1, 2, 3]) sMsigCopied.msig = fa
 /-- a 2-of-2 of the same key twice: one key holder suffices (as coded) -/
 example : msigVerify exEnv (.txn 40) (.msig 1 2 [1, 1]) ⟨1, 2, some [⟨1, some (1, .txn 40)⟩, ⟨1, some (1, .txn 40)⟩]⟩ = true :=
   msig_duplicate_entries_count exEnv (.txn 40) 1 (some (1, .txn 40)) (by decide) (by decide) (by decide)
+
+/-! the cache: real equality tests on the example types -/
+instance : DecidableEq (SubSig exT) := fun ⟨k1, s1⟩ ⟨k2, s2⟩ =>
+  if h : k1 = k2 ∧ s1 = s2 then isTrue (by cases h.1; cases h.2; rfl) else isFalse (by intro e; cases e; exact h ⟨rfl, rfl⟩)
+instance : DecidableEq (MSig exT) := fun ⟨v1, t1, l1⟩ ⟨v2, t2, l2⟩ =>
+  if h : v1 = v2 ∧ t1 = t2 ∧ l1 = l2 then isTrue (by cases h.1; cases h.2.1; cases h.2.2; rfl)
+  else isFalse (by intro e; cases e; exact h ⟨rfl, rfl, rfl⟩)
+instance : DecidableEq (PQSig exT) := fun ⟨a1, b1, c1, d1⟩ ⟨a2, b2, c2, d2⟩ =>
+  if h : a1 = a2 ∧ b1 = b2 ∧ c1 = c2 ∧ d1 = d2 then isTrue (by cases h.1; cases h.2.1; cases h.2.2.1; cases h.2.2.2; rfl)
+  else isFalse (by intro e; cases e; exact h ⟨rfl, rfl, rfl, rfl⟩)
+instance : DecidableEq (LSig exT) := fun ⟨a1, b1, c1, d1, e1, f1, g1⟩ ⟨a2, b2, c2, d2, e2, f2, g2⟩ =>
+  if h : a1 = a2 ∧ b1 = b2 ∧ c1 = c2 ∧ d1 = d2 ∧ e1 = e2 ∧ f1 = f2 ∧ g1 = g2 then
+    isTrue (by cases h.1; cases h.2.1; cases h.2.2.1; cases h.2.2.2.1; cases h.2.2.2.2.1; cases h.2.2.2.2.2.1; cases h.2.2.2.2.2.2; rfl)
+  else isFalse (by intro e; cases e; exact h ⟨rfl, rfl, rfl, rfl, rfl, rfl, rfl⟩)
+
+def exQ : FieldEq exT :=
+  ⟨fun a b => decide (a = b), fun a b => decide (a = b), fun a b => decide (a = b), fun a b => decide (a = b),
+   fun a b => decide (a = b), fun a b => decide (a = b)⟩
+
+theorem exQSound : FieldEqSound exQ :=
+  ⟨fun _ _ h => of_decide_eq_true h, fun _ _ h => of_decide_eq_true h, fun _ _ h => of_decide_eq_true h,
+   fun _ _ h => of_decide_eq_true h, fun _ _ h => of_decide_eq_true h, fun _ _ h => of_decide_eq_true h⟩
+
+/-- key 3's signed transaction 30 is in the cache; the same bytes are a hit, the same transaction and signature
+    presented with AuthAddr = 5 (what a rekeyed sender would need) is NOT — it goes to full verification and fails there -/
+def exCache : List (CacheEntry exT Unit) := [⟨(), [sSig]⟩]
+def sSigOtherAuth : STxn exT := { sSig with authAddr := .raw 5 }
+example : cacheHit exQ Gen.AuthzCacheKey.comparedFields (fun _ _ => true) exCache () [sSig] = some true := by decide
+example : cacheHit exQ Gen.AuthzCacheKey.comparedFields (fun _ _ => true) exCache () [sSigOtherAuth] = some false := by decide
+example : (verifyVia exEnv exP exQ Gen.AuthzCacheKey.comparedFields (fun _ _ => true) exCache () [sSigOtherAuth]).1 = .miss .batchFailed := by
+  decide
+/-- why `cache_compares_all_fields` matters: a lookup that does not compare AuthAddr reports the forged variant as verified -/
+example : cacheHit exQ [.sig, .msig, .lsig, .pqsig] (fun _ _ => true) exCache () [sSigOtherAuth] = some true := by decide
 
 end Ex
 
